@@ -203,6 +203,12 @@ public:
       auto raw = impl().get_raw_value();                                       \
       auto ret = raw opSymbol raw_rhs;                                         \
       using T_Ret = decltype(ret);                                             \
+      /* the operand's type need not be a pointer for the sum to be one: a */  \
+      /* class with a conversion to a raw pointer gets there too */            \
+      static_assert(!std::is_pointer_v<T_Ret>,                                 \
+                    "Cannot add or subtract a raw pointer and a tainted "      \
+                    "number. Pointer arithmetic is only supported with the "   \
+                    "tainted pointer as the first operand");                   \
       return tainted<T_Ret, T_Sbx>::internal_factory(ret);                     \
     }                                                                          \
   }                                                                            \
@@ -413,6 +419,9 @@ public:
   inline constexpr auto operator opSymbol(const T_Rhs& rhs) const              \
   {                                                                            \
     using T_RhsNoQ = detail::remove_cv_ref_t<T_Rhs>;                           \
+    static_assert(!detail::rlbox_is_wrapper_of_other_sandbox_v<T_Rhs, T_Sbx>,  \
+                  "Operator " #opSymbol                                        \
+                  " mixes values of different sandbox types");                 \
     constexpr bool check_rhs_hint =                                            \
       detail::rlbox_is_tainted_volatile_v<T_RhsNoQ> ||                         \
       detail::rlbox_is_tainted_boolean_hint_v<T_RhsNoQ>;                       \
@@ -469,6 +478,10 @@ public:
   {
     static_assert(std::is_pointer_v<T> || detail::is_c_or_std_array_v<T>,
                   "Operator [] supports pointers and arrays only");
+    static_assert(
+      !detail::rlbox_is_wrapper_of_other_sandbox_v<detail::remove_cv_ref_t<T_Rhs>,
+                                                   T_Sbx>,
+      "Operator [] mixes values of different sandbox types");
 
     auto raw_rhs = detail::unwrap_value(rhs);
     static_assert(std::is_integral_v<decltype(raw_rhs)>,
